@@ -36,7 +36,8 @@ MIN_NONTRIVIAL = 30
 REQUIRED_COUNTERS = {'c12_declined_cleanup_under_push_fault': 3,
                      'c12_jobs_under_hold': 60, 'c12_lifts_checked': 20,
                      'c12_f_unhandled_pairs': 500,
-                     'c12_f_handled_pairs': 100}
+                     'c12_f_handled_pairs': 100,
+                     'c12_f_dependency_cells': 150}
 SHARD_TIMEOUT = {'quick': 900, 'thorough': 5400}
 
 HOLDS = ['wait', 'after_open', 'after_declined', 'after_unknown',
@@ -154,6 +155,69 @@ def run_f(acc):
                         'PR %s -> %s (%s): %s' % (src, dst, status, outcome),
                         w)
     acc.exhaustive['F: name grammar pairs x PR status'] = True
+
+
+# -- F part 2: the dependency gate over every host's status vocabulary ---------
+DEP_STATUSES = ('OPEN', 'MERGED', 'DECLINED', 'SUPERSEDED')
+#   bitbucket hands back the raw `state` of the pull request, whose fourth
+#   value is SUPERSEDED; github and the mock host only ever say the first three
+
+
+def run_f_dependencies(acc):
+    """The real check_dependencies on a stub job: every list of <= 3
+    dependencies over the four statuses a git host can report, with and
+    without `wait`.  The pull request is released exactly when `wait` is off
+    and EVERY dependency is MERGED."""
+    from vf.func import fast, stubs
+    fast.install()
+    from bert_e.workflow import gitwaterflow as gwf
+    from bert_e import exceptions as messages
+    stubs.set_cmd_line_options([])
+
+    class Dep:
+        def __init__(self, pid, status):
+            self.id, self.status = pid, status
+            self.src_branch, self.dst_branch = 'feature/DEP-%d' % pid, \
+                'development/1.0'
+            self.title, self.author = 'dep %d' % pid, 'user'
+
+    for n in (0, 1, 2, 3):
+        for statuses in itertools.product(DEP_STATUSES, repeat=n):
+            for wait in (False, True):
+                settings = stubs.make_settings()
+                pr = stubs.StubPR(src='feature/TEST-1', dst='development/1.0',
+                                  status='OPEN')
+                job = stubs.make_job(settings, pr)
+                deps = {100 + i: Dep(100 + i, st)
+                        for i, st in enumerate(statuses)}
+                job.project_repo.get_pull_request = \
+                    lambda pid, deps=deps: deps[int(pid)]
+                job.settings.wait = wait
+                job.settings.after_pull_request = [str(i) for i in deps]
+                try:
+                    gwf.check_dependencies(job)
+                    outcome = 'released'
+                except (messages.AfterPullRequest, messages.NothingToDo,
+                        messages.IncorrectPullRequestNumber) as err:
+                    outcome = 'held:' + type(err).__name__
+                acc.evals += 1
+                acc.count('c12_f_dependency_cells')
+                acc.nontrivial_disjoint += 1
+                expect_release = not wait and all(
+                    st == 'MERGED' for st in statuses)
+                if 'SUPERSEDED' in statuses:
+                    acc.count('c12_f_dependency_cells_superseded')
+                if (outcome == 'released') != expect_release:
+                    acc.violation(
+                        'held-pull-request-released-by-dependency-gate'
+                        if outcome == 'released' else
+                        'dependency-gate-holds-a-free-pull-request',
+                        'dependencies %r wait=%s: %s' % (
+                            list(statuses), wait, outcome),
+                        {'f': 'dependencies', 'statuses': list(statuses),
+                         'wait': wait})
+    acc.exhaustive['F: <= 3 dependencies x {OPEN, MERGED, DECLINED, '
+                   'SUPERSEDED} x wait'] = True
 
 
 # -- W part -------------------------------------------------------------------
@@ -456,6 +520,7 @@ def run_shard(spec, acc):
     rng = random.Random('c12-%s-%s' % (spec['seed'], spec['shard']))
     if spec['shard'] == 0:
         run_f(acc)
+        run_f_dependencies(acc)
     cases = [(layout, mode, hold, pos)
              for hold in HOLDS + NONHOLDS
              for pos in (0, 1, 2)
@@ -491,6 +556,9 @@ def finalize(acc, tier, seed):
 
 def replay(witness, acc):
     runner.quiet()
+    if witness.get('f') == 'dependencies':
+        run_f_dependencies(acc)
+        return
     if witness.get('f'):
         run_f(acc)
         return
